@@ -3,7 +3,8 @@
 
     c10 <op> <mode> <cb> <cw> <db> <pw> <pb> <sw> <sb> <operands…>
 
-  mode  F = bare filter (`Filter.build`), O = NewRedisOutput wiring (`buildOutput`)
+  mode  F = bare filter (`Filter.build`), O = NewRedisOutput of a plain link (`buildOutputPlain`),
+        B = NewRedisOutput of a bisync link (`buildOutput`)
   cb cw pw pb : list of byte strings  "." | hex{,hex}      ("-" = empty string)
   db          : list of ints          "." | int{,int}
   sw sb       : slot entries          "." | entry{;entry}  entry = "e" | nat{_nat}
@@ -61,7 +62,8 @@ def cfg? (cb cw db pw pb sw sb : String) : Option FilterCfg := do
 def mk? (mode cb cw db pw pb sw sb : String) : Option KeyFilter := do
   let c ← cfg? cb cw db pw pb sw sb
   if mode == "F" then pure (build c)
-  else if mode == "O" then pure (buildOutput c)
+  else if mode == "O" then pure (buildOutputPlain c)
+  else if mode == "B" then pure (buildOutput c)
   else none
 
 def b01 (b : Bool) : String := if b then "1" else "0"
@@ -165,7 +167,7 @@ def handle : List String → Option (List String)
         | _, _, _, _ => some ["bad-op"]
       | "brdb", [d, h] =>
         match int? d, Hex.decode h with
-        | some d, some k => some [if rdbKeep f d k then "keep" else "drop"]
+        | some d, some k => some [if rdbKeepBisync f d k then "keep" else "drop"]
         | _, _ => some ["bad-op"]
       | "rdb", [d, h] =>
         match int? d, Hex.decode h with
